@@ -56,6 +56,7 @@ type cmafIngester struct {
 	asset          *asset
 	repsData       []cmafRepData
 	nextSegTrigger chan struct{}
+	done           chan struct{} // closed when the session loop has ended
 	state          ingesterState
 	report         []string
 }
@@ -181,6 +182,7 @@ func (cm *cmafIngesterMgr) NewCmafIngester(req CmafIngesterSetup) (nr uint64, er
 		repsData:       repsData,
 		state:          ingesterStateNotStarted,
 		nextSegTrigger: make(chan struct{}),
+		done:           make(chan struct{}),
 	}
 	if c.dur != nil {
 		c.nrSegsToSend = m.Ptr(*c.dur * 1000 / asset.SegmentDurMS)
@@ -226,6 +228,7 @@ func (c *cmafIngester) start(ctx context.Context) {
 
 	defer func() {
 		c.state = ingesterStateStopped
+		close(c.done)
 	}()
 
 	// Finally we should send off the init segments
@@ -446,8 +449,14 @@ func (c *cmafIngester) start(ctx context.Context) {
 	//
 }
 
-func (c *cmafIngester) triggerNextSegment() {
-	c.nextSegTrigger <- struct{}{}
+// triggerNextSegment makes the session loop send the next segment. It returns false if the session has ended.
+func (c *cmafIngester) triggerNextSegment() bool {
+	select {
+	case c.nextSegTrigger <- struct{}{}:
+		return true
+	case <-c.done:
+		return false
+	}
 }
 
 func (c *cmafIngester) dest() string {
